@@ -30,8 +30,12 @@ def block_desc(max_txs=6, coll=True):
                      st.lists(TX, min_size=0, max_size=max_txs))
 
 
-def sync_case(min_blocks=3, max_blocks=24, max_txs=6):
-    def build(activation, prefetch, reorg_limit, blocks, flushes, reveals, lat, coll):
+def sync_case(min_blocks=3, max_blocks=24, max_txs=6, large=False):
+    def build(activation, prefetch, reorg_limit, blocks, flushes, reveals, lat, coll, pads=()):
+        if pads:
+            # the "large" stratum: some blocks carry hundreds of cheap extra transactions whose
+            # outputs later blocks spend (thousands of UTXOs, tx numbers in the thousands)
+            blocks = [dict(b, pad=pads[i % len(pads)]) for i, b in enumerate(blocks)]
         if coll is not None and len(blocks) < 5:
             blocks = blocks + [blocks[-1]] * (5 - len(blocks))
         n = len(blocks)
@@ -58,7 +62,9 @@ def sync_case(min_blocks=3, max_blocks=24, max_txs=6):
         st.lists(st.integers(0, 2), max_size=30),
         st.one_of(st.none(),
                   st.tuples(st.integers(0, 223), st.integers(0, 30),
-                            st.lists(st.integers(1, 4), min_size=1, max_size=4)).map(list)))
+                            st.lists(st.integers(1, 4), min_size=1, max_size=4)).map(list)),
+        st.lists(st.sampled_from([0, 0, 0, 40, 120, 300]), min_size=1, max_size=8) if large
+        else st.just(()))
 
 
 def build_world(case):
